@@ -149,7 +149,8 @@ def _make_kwonly(code):
     return KwOnlyError(code=code)
 
 
-EXC_KINDS = ("ValueError", "KeyError", "ZeroDivisionError", "RuntimeError0", "CustomError", "KwOnlyError", "FileNotFoundError")
+EXC_KINDS = ("ValueError", "KeyError", "ZeroDivisionError", "RuntimeError0", "CustomError", "KwOnlyError", "FileNotFoundError",
+             "StopIteration")
 
 
 def make_exc(kind: str):
@@ -165,6 +166,8 @@ def make_exc(kind: str):
         return CustomError(7, "detail")
     if kind == "KwOnlyError":
         return KwOnlyError(code=3)
+    if kind == "StopIteration":
+        return StopIteration("exhausted")  # e.g. next(it) without default inside the user function
     if kind == "FileNotFoundError":
         return FileNotFoundError(2, "no such thing", "some/file")  # OSError's special constructor
     raise ValueError(kind)
